@@ -248,9 +248,13 @@ def build_pipeline(pid, pspec):
     for o in pspec["ops"]:
         parents = [ops[i] for i in o["parents"]] or None
         op = p.new_operator(parents)
+        same = {}
         for sg in o["segs"]:
-            op.add_segment(Segment(baseline_cpu_seconds=sg["cpu"], cpu_scaling=sg["law"], memory_gb=sg["mem"],
-                                   storage_read_gb=sg["read"]))
+            key = (sg["cpu"], sg["law"], sg["mem"], sg["read"])
+            if key not in same or len(ops) % 2:
+                # identical stages of an even-numbered operator are one Segment object added twice
+                same[key] = Segment(baseline_cpu_seconds=sg["cpu"], cpu_scaling=sg["law"], memory_gb=sg["mem"], storage_read_gb=sg["read"])
+            op.add_segment(same[key])
         ops.append(op)
     tag_pipeline(p)
     return p
